@@ -14,7 +14,7 @@ func init() {
 	register("C07",
 		"Structural necessary conditions of C07 decided from /repo's SSA: (render-total) every index/slice expression in the table renderer and the footnote collector is discharged from dominating facts by the zone-domain bounds engine, so no refgroup nesting depth or name can crash the report; (count) reference_count receives exactly ADD{1}, RegisterReference is called for every root that is a reference regardless of Walk(), exactly one root is collected per reference delivered with walk/groups from the same Categorize call, and each group symbol bumps its tally exactly once; (argv) the reference listing is `for-each-ref` with only the --format argument; (ignored) the `ignored` symbol is appended iff the reference is not walked, and a group whose own filter rejects the name returns (false, no symbols) before collecting any; (symbols) v2 symbols are `refgroup.<symbol>`, indentation is the dot count of the symbol, groups absent from the tally are skipped. Not decided: the recursive tally semantics (`other` buckets, union of subgroups) over arbitrary forests.",
 		[]string{"git for-each-ref lists every reference once", "field-based heap model"},
-		ruleC07RenderTotal, ruleC07Count, ruleC07Argv, ruleC07Ignored, ruleC07Symbols)
+		ruleC07RenderTotal, ruleC07Count, ruleC07Argv, ruleC07Ignored, ruleC07Symbols, ruleC07Subgroups)
 	register("C08",
 		"Structural necessary conditions of C08 decided from /repo's SSA: (pairing) every witness-path update is control-dependent on the `true` result of the AdjustMax* call on the paired value field (pairing table = the documented JSON v1 keys), passes the function's own object id and the object kind of the metric, and forgets the previous path before requesting the new one; (siblings) in the report's item list every item cites the path field paired with its value field; (none) with NameStyleNone the resolver hands out no path, Footnote is always empty, hash style cites the object id and full style the path description. Not decided: that a printed description resolves with git rev-parse (depends on git's revision grammar and run-time strings).",
 		[]string{"the enumeration delivers each object's id together with its size (C01.effects provenance)"},
@@ -625,5 +625,91 @@ func ruleC08Siblings(c *Ctx) {
 	}
 	if n < len(witnessPairs) {
 		c.violate("C08.siblings", "floor", contents.Pos(), fnName(contents), fmt.Sprintf("only %d items cite a witness; each of the %d maxima with a footnote must", n, len(witnessPairs)))
+	}
+}
+
+// ruleC07Subgroups: in the recursive symbol collector every subgroup of a
+// group is consulted, exactly once, and everything it reports is kept: the
+// loops over the subgroups have no early exit, make exactly one recursive
+// call per subgroup and append its symbols exactly once.
+func ruleC07Subgroups(c *Ctx) {
+	var collector *ssa.Function
+	for _, f := range c.ModFns {
+		if pkgOf(f) != modPath+"/internal/refopts" || f.Signature.Results().Len() != 2 || !isBoolType(f.Signature.Results().At(0).Type()) {
+			continue
+		}
+		if len(callsTo(f, f)) > 0 {
+			collector = f
+		}
+	}
+	if collector == nil {
+		c.violate("C07.subgroups", "collector", token.NoPos, "", "no recursive symbol collector found in refopts: subgroup tallies are not computed")
+		return
+	}
+	name := fnName(collector)
+	n := 0
+	for _, l := range loopsOf(collector) {
+		if !c.rangeOverField(collector, l, "subgroups") {
+			continue
+		}
+		n++
+		key := fmt.Sprintf("loop@%s", c.lineKey(l.Head.Instrs[0]))
+		// no early exit
+		early := false
+		for b := range l.Blocks {
+			if b == l.Head {
+				continue
+			}
+			for _, s := range b.Succs {
+				if !l.Blocks[s] {
+					early = true
+				}
+			}
+			if len(b.Succs) == 0 {
+				early = true
+			}
+		}
+		if early {
+			c.violate("C07.subgroups", key+":all", posOf(l.Head.Instrs[0]), name, "the loop over a group's subgroups can stop early: a reference matching several sibling subgroups would be tallied only under the first")
+			continue
+		}
+		ecCall := c.newEventCounter(func(in ssa.Instruction) int {
+			if call, ok := in.(*ssa.Call); ok && call.Call.StaticCallee() == collector {
+				return 1
+			}
+			return 0
+		}, false)
+		ecApp := c.newEventCounter(func(in ssa.Instruction) int {
+			call, ok := in.(*ssa.Call)
+			if !ok || !isBuiltin(&call.Call, "append") {
+				return 0
+			}
+			// append(symbols, ss...) where ss is the recursive result
+			if ex, ok := call.Call.Args[1].(*ssa.Extract); ok {
+				if rc, ok := ex.Tuple.(*ssa.Call); ok && rc.Call.StaticCallee() == collector && ex.Index == 1 {
+					return 1
+				}
+			}
+			return 0
+		}, false)
+		rc, ra := ecCall.perIteration(l), ecApp.perIteration(l)
+		if rc.Min == 1 && rc.Max == 1 && ra.Min == 1 && ra.Max == 1 {
+			c.hold("C07.subgroups", key, posOf(l.Head.Instrs[0]), "every subgroup is consulted exactly once and its symbols are kept")
+		} else {
+			c.violate("C07.subgroups", key, posOf(l.Head.Instrs[0]), name, fmt.Sprintf("per subgroup the collector is called %s times and its symbols are appended %s times (must be exactly once each)", rangeStr(rc), rangeStr(ra)))
+		}
+		// the recursive call is made on the subgroup of this iteration with the same reference name
+		for b := range l.Blocks {
+			for _, in := range b.Instrs {
+				if call, ok := in.(*ssa.Call); ok && call.Call.StaticCallee() == collector {
+					if c.resolve(call.Call.Args[1]) != ssa.Value(collector.Params[1]) {
+						c.violate("C07.subgroups", key+":refname", call.Pos(), name, "a subgroup is asked about a different reference name")
+					}
+				}
+			}
+		}
+	}
+	if n < 2 {
+		c.violate("C07.subgroups", "loops", collector.Pos(), name, fmt.Sprintf("expected the two loops over a group's subgroups (with and without a filter of its own), found %d", n))
 	}
 }
